@@ -5,7 +5,7 @@ import random
 from .. import core, flow, corr_bm, oracles_bm as ob
 
 PROOFS = ['Tsv.Proofs.C04Alg', 'Tsv.Proofs.C04Levy', 'Tsv.Proofs.C03Alg', 'Tsv.Proofs.BMCore', 'Tsv.Proofs.C05', 'Tsv.Proofs.C03Model',
-          'Tsv.Proofs.C04Model', 'Tsv.Proofs.C04ModelW', 'Tsv.Proofs.C04ModelEx', 'Tsv.Proofs.BMPoints', 'Tsv.Proofs.C04Points', 'Tsv.Proofs.C04History', 'Tsv.Proofs.C04HistoryU']  # C03Alg: the Levy areas of stored pieces combine by Chen
+          'Tsv.Proofs.C04Model', 'Tsv.Proofs.C04ModelW', 'Tsv.Proofs.C04ModelEx', 'Tsv.Proofs.BMPoints', 'Tsv.Proofs.C04Points', 'Tsv.Proofs.C04History', 'Tsv.Proofs.C04HistoryU', 'Tsv.Proofs.C04HistoryEx']  # C03Alg: the Levy areas of stored pieces combine by Chen
 TRUSTED = ["Lean 4.33 kernel + Mathlib", "tracer/emitter (validated each run)",
            "a linear image of i.i.d. N(0,1) variables is Gaussian with the Gram covariance (classical, not formalised)",
            "torch.randn under distinct seeds gives independent standard normals; numpy SeedSequence; 32-bit seed collisions",
